@@ -115,9 +115,9 @@ func runC04Script(c incrConf, sc c03Script, startOffset int64, restartPicks []in
 	srv.KeepRaw = true
 	in := startIncr(srv, true, c04RunID, 0, startOffset)
 	defer func() { in.stop(); go in.reap() }()
-	want := expectedApplied(sc.st, c, -1)
+	want := withoutPings(expectedApplied(sc.st, c, -1)) // keep-alives carry no data: C04 compares data commands only
 	in.feed(sc.st.bytes, sc.splits, sc.delays)
-	in.waitApplied(len(want), 5*time.Second)
+	in.waitData(len(want), 5*time.Second)
 	// the last group's EXEC follows its commands in the same flush; give it a moment
 	time.Sleep(40 * time.Millisecond)
 	if ab := in.aborts(); len(ab) > 0 {
@@ -301,6 +301,12 @@ func restartFromCut(c incrConf, sc c03Script, startOffset int64, prefix [][][]by
 		srv.Exec(cs, argv)
 	}
 	cs.InTx, cs.Queue = false, nil // the connection is gone: a queued transaction is discarded
+	// other syncers share the target: checkpoints of sources whose address ends with / starts with ours, far ahead of ours
+	for i, other := range []string{"x" + incrSource, incrSource + "0"} {
+		srv.Put(7+i, ckName, &mredis.Entry{Kind: "hash", Hash: map[string]string{
+			other + "-" + utils.CheckpointRunId: "ffffffffffffffffffffffffffffffffffffffff", other + "-" + utils.CheckpointVersion: "1",
+			other + "-" + utils.CheckpointOffset: "1099511627776"}})
+	}
 	var runid string
 	var offset int64
 	var db int
@@ -332,7 +338,7 @@ func restartFromCut(c incrConf, sc c03Script, startOffset int64, prefix [][][]by
 		time.Sleep(700 * time.Millisecond) // the source stays silent past a flush tick before the stream continues
 	}
 	in.feed(suffix, nil, nil)
-	in.waitApplied(len(want), 5*time.Second)
+	in.waitData(len(want), 5*time.Second)
 	time.Sleep(40 * time.Millisecond)
 	if ab := in.aborts(); len(ab) > 0 {
 		return "restart:abort", "the restarted syncer aborted: " + ab[0].Msg
@@ -373,6 +379,16 @@ func restartFromCut(c incrConf, sc c03Script, startOffset int64, prefix [][][]by
 		}
 	}
 	return "", ""
+}
+
+func withoutPings(a []applied) []applied {
+	out := a[:0:0]
+	for _, x := range a {
+		if x.name != "ping" {
+			out = append(out, x)
+		}
+	}
+	return out
 }
 
 // clipCmds renders the last n of the given commands.
